@@ -2,7 +2,7 @@
 
 
 def c05_nontrivial(c, i):
-    return "got" in i or "get" in i or (c[0] in ("c05.pipe", "c05.chain") and len(i) > 2)
+    return "got" in i or "get" in i or (c[0] in ("c05.pipe", "c05.chain", "c05.bpipe", "c05.bchain") and len(i) > 2)
 
 
 def c05_classify(c, i):
@@ -12,6 +12,9 @@ def c05_classify(c, i):
         out.append("cap=" + (c[2] if int(c[2]) < 4 else "4+"))
         if "wait" in i: out.append("reader-waited")
         if "spin" in i: out.append("back-spun")
+    elif c[0] in ("c05.bpipe", "c05.bchain"):
+        out.append("pool=" + c[1]); out.append("real-batcher")
+        if "s" in c[5:]: out.append("split-through-batcher")
     elif c[0] == "c05.chain":
         out.append("pool=" + c[1]); out.append("order=" + c[3])
         ks = c[4:]
